@@ -26,7 +26,17 @@
                       | (limit p)       a file that takes p bytes, then fails every write with FileTooLarge (RLIMIT_FSIZE)
            | (psweep (sizes n...) (at p...))         -> (psweep (<rc> <file length> <max_id> <Size> <resave same>) ...)
              target (limit p) for each listed p
-     r  ::= (a k) | i | z | (f kind)        rc ::= ok | (err kind)                                  *)
+           | (onelen call|pos (script r...))         -> (reslen (<rc> <delivered length> <max_id> <Size> <resave same>))
+             `one` for big outputs: lengths instead of bytes (the harness checks directly that the delivered bytes are a prefix
+             of `full`, so result + length determine them)
+           | (sweepat (script r...) (tails (t r...) ...) (at p...))
+                                                     -> (sweepat (<rc> <delivered length> <max_id> <Size> <resave same>) ...)
+             for every listed p (outer) and every tail (inner): the positional sink that follows the soft script for its
+             first p bytes and then gives the answers of the tail
+           | (perfect)                               -> (perfect ok)     a sink that takes everything: the save succeeds
+     r  ::= (a k) | i | z | (f kind) | (rep n r) | (st r)        rc ::= ok | (err kind)
+            (rep n r) = r n times (n <= 4000); (st r) = the hard answer r at this and every later call: a save stops at
+            the first hard answer (write_all returns, `?` propagates), so STICKY copies stand for "for ever"  *)
 From LV Require Import Base.Bytes Base.Sx Model.Obj Model.Sink Model.SaveState Model.SinkBuf.
 
 Local Open Scope string_scope.
@@ -66,8 +76,26 @@ Definition resp_of_sx (x : sx) : option resp :=
     else if is_id t "f" then option_map Fail (kind_of_sx v) else None
   | _ => None
   end.
+Definition is_hard (r : resp) : bool := match hard_kind r with Some _ => true | None => false end.
+Definition STICKY : nat := 64.
+Definition REP_MAX : N := 4000.
+(* one script item -> the answers it stands for (mirrored by resps_of in harness/src/bin/c19.rs) *)
+Definition resps_of_sx (x : sx) : option script :=
+  match x with
+  | SL [t; n; v] =>
+    if is_id t "rep" then
+      do n <- as_N n; do r <- resp_of_sx v;
+      if (n <=? REP_MAX)%N then Some (repeat r (N.to_nat n)) else None
+    else None
+  | SL [t; v] =>
+    if is_id t "st" then
+      do r <- resp_of_sx v; if is_hard r then Some (repeat r STICKY) else None
+    else option_map (fun r => [r]) (resp_of_sx x)
+  | _ => option_map (fun r => [r]) (resp_of_sx x)
+  end.
+Definition items_of_sx (l : list sx) : option script := option_map (@concat resp) (omap resps_of_sx l).
 Definition script_of_sx (x : sx) : option script :=
-  match x with SL (t :: l) => if is_id t "script" then omap resp_of_sx l else None | _ => None end.
+  match x with SL (t :: l) => if is_id t "script" then items_of_sx l else None | _ => None end.
 
 Definition rc_to_sx (r : wres) : sx :=
   match r with WOk => sx_id "ok" | WErr e => SL [sx_id "err"; kind_to_sx e] end.
@@ -83,8 +111,15 @@ Fixpoint cut_quota (s : script) (p : N) : script :=
 
 Definition small (n : N) : nat := N.to_nat (N.min n 1000000).
 
+(* (firstn m full, skipn m full) without a stack frame per byte: outputs of 300 000 bytes are cut here *)
+Fixpoint split_rev (n : nat) (l acc : bytes) : bytes * bytes :=
+  match n, l with
+  | S n', x :: l' => split_rev n' l' (x :: acc)
+  | _, _ => (acc, l)
+  end.
 Definition cut_at (full : bytes) (cut : N) : bytes * bytes :=
-  let m := N.to_nat (N.min cut (N.of_nat (length full))) in (firstn m full, skipn m full).
+  let m := N.to_nat (N.min cut (N.of_nat (length full))) in
+  let '(ra, b) := split_rev m full [] in (rev_append ra [], b).
 Definition chunked (sizes : list nat) (b : bytes) : list bytes := chunk_by (length b + length sizes) sizes sizes b.
 
 Fixpoint positions (n : nat) (lo step : N) : list N :=
@@ -114,28 +149,44 @@ Definition cfg_of_sx (x : sx) : option cfg :=
 (* the state a re-save starts from is compared after the raise every plain save begins with *)
 Definition c_raised (c : cfg) : sstate := raise_max_id (c_top c) (c_state c).
 
+Definition tail_of_sx (x : sx) : option script :=
+  match x with SL (t :: l) => if is_id t "t" then items_of_sx l else None | _ => None end.
+
 Definition run_job (c : cfg) (pre post : list bytes) (job : sx) : option sx :=
   let go := fun (positional : bool) (s : script) =>
     save_with (if positional then qwrite_all else write_all) (c_mode c) (c_ids c) (c_top c) pre post (c_state c) s in
+  let row := fun (res : wres * bytes * sstate) =>
+    let '(r, d, st') := res in
+    SL [rc_to_sx r; sx_N (N.of_nat (length d)); sx_N (s_max_id st'); sx_Z (size_of st');
+        sx_bool (resave_same (c_mode c) (c_raised c) (raise_max_id (c_top c) st'))] in
   match job with
+  | SL [t] => if is_id t "perfect" then Some (SL [sx_id "perfect"; sx_id "ok"]) else None
   | SL [t; sem; sc] =>
     if is_id t "one" then
       do s <- script_of_sx sc;
       let '(r, d, st') := go (is_id sem "pos") s in
       Some (SL [sx_id "res"; rc_to_sx r; sx_bytes d; state_to_sx st'; sx_bool (resave_same (c_mode c) (c_raised c) (raise_max_id (c_top c) st'))])
+    else if is_id t "onelen" then
+      do s <- script_of_sx sc;
+      Some (SL [sx_id "reslen"; row (go (is_id sem "pos") s)])
+    else None
+  | SL [t; sc; SL (tg :: tails); SL (ta :: ps)] =>
+    if is_id t "sweepat" && is_id tg "tails" && is_id ta "at" then
+      do s <- script_of_sx sc;
+      do tails <- omap tail_of_sx tails;
+      do ps <- omap as_N ps;
+      Some (SL (sx_id "sweepat" ::
+                flat_map (fun p => let pre_s := cut_quota s p in map (fun tl => row (go true (pre_s ++ tl))) tails) ps))
     else None
   | SL [t; sc; hard; lo; hi; step] =>
     if is_id t "sweep" then
       do s <- script_of_sx sc;
-      do h <- resp_of_sx hard;
+      do h <- resps_of_sx hard;
       do lo <- as_N lo; do hi <- as_N hi; do step <- as_N step;
       if (step =? 0)%N || (hi <? lo)%N then None else
       let n := S (small ((hi - lo) / step)) in
       Some (SL (sx_id "sweep" ::
-                map (fun p => let '(r, d, st') := go true (cut_quota s p ++ [h]) in
-                              SL [rc_to_sx r; sx_N (N.of_nat (length d)); sx_N (s_max_id st'); sx_Z (size_of st');
-                                  sx_bool (resave_same (c_mode c) (c_raised c) (raise_max_id (c_top c) st'))])
-                    (positions n lo step)))
+                map (fun p => row (go true (cut_quota s p ++ h))) (positions n lo step)))
     else None
   | _ => None
   end.
